@@ -39,6 +39,12 @@ def catchall_handlers(trystmt):
     return False
 
 
+def fsig(f):
+    """qualified name with parameter types: names one overload"""
+    return "%s(%s)" % (f.get("qn"), ", ".join(
+        p["t"] for p in f.get("params", ())))
+
+
 def nid(u, ctx=None):
     return u if ctx is None else "%s|%s" % (u, ctx)
 
@@ -62,6 +68,10 @@ class CallGraph:
             self.excluded |= prog.descendants(c)
         self._sites = {}
         self._throws = {}
+        # (caller qualified name, callee simple name) -> reason: call sites
+        # whose callee cannot throw *for the arguments passed there*
+        self.site_nothrow = {}
+        self.site_nothrow_hits = defaultdict(int)
         self.lambda_body = {}           # lambda id -> (owner usr, ctx, node)
         self.lambdas_in_fn = defaultdict(list)
         self.lambdas_in_cls = defaultdict(list)
@@ -248,7 +258,13 @@ class CallGraph:
                 throws.append((n.get("l"), "rethrow" if n.get("rethrow")
                                else show(n)[:100]))
             if k in ("call", "mcall", "op", "ctor") and n.get("u"):
-                sites.append(CallSite(n, self.resolve(f, ctx, n), prot,
+                sp = prot
+                if self.site_nothrow:
+                    okey = (fsig(f), prog.header(n["u"]).get("n"))
+                    if okey in self.site_nothrow:
+                        self.site_nothrow_hits[okey] += 1
+                        sp = True
+                sites.append(CallSite(n, self.resolve(f, ctx, n), sp,
                                       n.get("l")))
             for c in children(n):
                 visit(c, prot, n)
